@@ -20,6 +20,8 @@ TRUSTED = {
     'solve': 'np.linalg.solve(A,b) returns the exact x with A x = b for nonsingular A and raises LinAlgError for singular A; np.linalg.inv likewise',
     'lsim': 'scipy.signal.lsim returns the exact response of the LTI system for the piecewise-linear interpolant of the input, from zero initial state',
     'cpython': 'CPython 3.12 semantics of the modelled subset (dataclasses, dict order, argument binding)',
+    'ring': 'polynomial identities in the solver results are decided by normalisation in the field of rational functions (sympy, exact) for small terms and by Schwartz-Zippel evaluation at 4 random points of Z_p, p = 2^61-1 and 2^89-1 (one-sided error < 1e-60) for large ones; back end recorded per query as ring(exact) / ring(pit)',
+    'json': 'json.dumps/loads and yaml.dump/safe_load are inverse to each other on trees of dict[str,..], list, str, bool, int, finite float and reject complex numbers (DESIGN sec. 4)',
     'lean': 'Lean 4.33 kernel + Mathlib for spec-level lemmas (axioms: propext, Classical.choice, Quot.sound)',
 }
 
